@@ -169,7 +169,10 @@ func runC07(cfg Config) {
 			"IndexFromFile, Tar, UnTar) x worker counts x every cancellation point k (the context is cancelled at the k-th hit of the "+
 			"instrumented feeder-loop site, k = 0 .. #jobs, and before the call): a nil result must come with complete work (all chunks "+
 			"stored / output equals blob / index covers input / tree complete); a mismatching file must never verify. Plus the extract "+
-			"temp-file protocol: destination untouched unless success. non-trivial = distinct (function, n, k) with k below the job count")
+			"temp-file protocol: destination untouched unless success. non-trivial = distinct (function, n, k) with k below the job count. "+
+			"Trace validation: VerifyIndex, ChopFile, Copy, ChunkStream, Plan.Validate under a cooperative scheduler (n = 1..5, parent cancellation at a random "+
+			"step, store faults / mismatching files); the recorded events must be a run of the pool machine (pool.accept, poolcs.accept), the machine must "+
+			"enable exactly what the code can do next, result and completed jobs must agree")
 	rng := rand.New(rand.NewSource(cfg.Seed))
 	monitor := func(what, caseLine string) {
 		rep.Disagree(Disagreement{Kind: "monitor", Case: caseLine, What: what})
@@ -562,7 +565,9 @@ func runC06(cfg Config) {
 			"(the k-th HasChunk/StoreChunk/GetChunk call fails, for every k; random subsets; faults restricted to one call kind): a nil "+
 			"result must come with every referenced chunk readable and valid in the target store and, for a fresh index, an index that "+
 			"describes the input exactly; a failing call observed by a worker must surface as an error. non-trivial = distinct "+
-			"(function, n, fault schedule) with at least one scripted fault")
+			"(function, n, fault schedule) with at least one scripted fault. Trace validation: ChopFile, Copy, ChunkStream under a cooperative scheduler "+
+			"with the k-th store call failing and parent cancellations; events replayed through Pool.step (pool.accept) and, with the ChunkStorage steps, "+
+			"through PoolCS.step (poolcs.accept); completed jobs vs. the final content of the target store")
 	rng := rand.New(rand.NewSource(cfg.Seed))
 	monitor := func(what, caseLine string) {
 		rep.Disagree(Disagreement{Kind: "monitor", Case: caseLine, What: what})
